@@ -335,6 +335,20 @@ MIRROR2 = '''#[derive(Copy, Clone, Debug, Default)] struct Mirror;
     impl retrofire_core::math::mat::Compose<Mirror> for RealToReal<3, {2}, {3}> {{ type Result = RealToReal<3, {0}, {3}>; }}'''
 t("impl Compose<user map> for a built-in map", MIRROR2, [B, B, B, B], lambda s, d, s2, d2: s2 == d)
 
+# --- component accessors: only the components a type has (a 2-D point has no depth, an HSL colour no red channel) -------------
+ACC = ["x", "y", "z"]
+t("pt2 accessor", "let _ = p2::<{0}>().{1}();", [B, ACC], lambda b, a: a != "z")
+t("pt3 accessor", "let _ = p3::<{0}>().{1}();", [B, ACC], lambda b, a: True)
+t("vec2 accessor", "let _ = v2::<{0}>().{1}();", [B, ACC], lambda b, a: a != "z")
+t("vec3 accessor", "let _ = v3::<{0}>().{1}();", [B, ACC], lambda b, a: True)
+t("pt2u accessor", "let _ = retrofire_core::math::point::pt2::<u32, ()>(1, 2).{0}();", [ACC], lambda a: a != "z")
+# (LinRgb is left out: whether linear RGB colours get r/g/b accessors is not a tagging question)
+CACC = ["r", "g", "b", "h", "s", "l"]
+t("colour3 accessor by space", "let _ = cf::<{0}>().{1}();", [["Rgb", "Hsl"], CACC], lambda sp, a: (a in "rgb") == (sp == "Rgb"))
+t("colour3 u8 accessor by space", "let _ = c8::<{0}>().{1}();", [["Rgb", "Hsl"], CACC], lambda sp, a: (a in "rgb") == (sp == "Rgb"))
+t("colour4 accessor by space", "let _ = c4f::<{0}>().{1}();", [C4, CACC + ["a"]], lambda sp, a: a == "a" or ((a in "rgb") == (sp == "Rgba")))
+t("colour4 u8 accessor by space", "let _ = c48::<{0}>().{1}();", [C4, CACC + ["a"]], lambda sp, a: a == "a" or ((a in "rgb") == (sp == "Rgba")))
+
 
 def programs():
     out = []
